@@ -121,6 +121,7 @@ class TNDyn(TNOps):
         numiter = int(op['numiter'])
         tol_split = float(op.get('tol_split', 0.0)) if sites == 2 else 0.0
         M = H.dense
+        self.transient_extreme(psi, op)
         v_in = psi.dense.copy()
         nv = float(np.linalg.norm(v_in))
         v0 = v_in / nv
